@@ -44,9 +44,9 @@ def inputs(rng):
     return sch.sql, "\n".join(qs)
 
 
-def v1_config(flags, paths_as_list, overrides=None, rename=None, name="db"):
+def v1_config(flags, paths_as_list, overrides=None, rename=None, name="db", qpath="query.sql"):
     pkg = {"path": "out", "engine": "postgresql", "schema": ["schema.sql"] if paths_as_list else "schema.sql",
-           "queries": ["query.sql"] if paths_as_list else "query.sql"}
+           "queries": [qpath] if paths_as_list else qpath}
     if name:
         pkg["name"] = name
     for f in flags:
@@ -59,14 +59,14 @@ def v1_config(flags, paths_as_list, overrides=None, rename=None, name="db"):
     return cfg
 
 
-def v2_config(flags, paths_as_list, overrides=None, rename=None, name="db"):
+def v2_config(flags, paths_as_list, overrides=None, rename=None, name="db", qpath="query.sql"):
     go = {"out": "out"}
     if name:
         go["package"] = name
     for f in flags:
         go[f] = True
     cfg = {"version": "2", "sql": [{"engine": "postgresql", "schema": ["schema.sql"] if paths_as_list else "schema.sql",
-                                    "queries": ["query.sql"] if paths_as_list else "query.sql", "gen": {"go": go}}]}
+                                    "queries": [qpath] if paths_as_list else qpath, "gen": {"go": go}}]}
     if overrides or rename:
         cfg["overrides"] = {"go": {}}
         if overrides:
@@ -77,7 +77,11 @@ def v2_config(flags, paths_as_list, overrides=None, rename=None, name="db"):
 
 
 def gen_job(schema, queries, cfg, fmt):
-    files = {"schema.sql": schema, "query.sql": queries}
+    files = {"schema.sql": schema}
+    if isinstance(queries, dict):          # several query files in one directory
+        files.update({"queries/" + k: v for k, v in queries.items()})
+    else:
+        files["query.sql"] = queries
     if fmt == "json":
         files["sqlc.json"] = json.dumps(cfg)
     else:
@@ -143,8 +147,18 @@ def run(tier, seed):
               "-- name: SetState :exec\nUPDATE orders SET state = $1 WHERE id = $2;\n\n"
               "-- name: ByMood :many\nSELECT id, state, st FROM orders WHERE mood = $1;\n\n"
               "-- name: OneMood :one\nSELECT mood FROM orders WHERE id = $1;\n")]
+    # two query files: a type that needs an import stands bare (single parameter / single result) in one file only - no option
+    # may make the other file differ
+    fixed.append(("CREATE TABLE people (id uuid PRIMARY KEY, nick text, born timestamptz NOT NULL, n int);\n",
+                  {"a_people.sql": "-- name: ByNick :many\nSELECT id, n FROM people WHERE nick = $1;\n\n-- name: Born :one\nSELECT born FROM people WHERE n = $1;\n",
+                   "b_plain.sql": "-- name: CountPeople :one\nSELECT count(*) FROM people;\n\n-- name: Purge :exec\nDELETE FROM people WHERE n = 0;\n"}))
     for inp in range(n_inputs):
         schema, queries = fixed[inp] if inp < len(fixed) else inputs(rng)
+        if isinstance(queries, str) and inp >= len(fixed) and queries.count("-- name:") > 1 and rng.random() < 0.4:
+            parts = ["-- name:" + x for x in queries.split("-- name:")[1:]]
+            k = rng.randint(1, len(parts) - 1)
+            queries = {"a.sql": "".join(parts[:k]), "b.sql": "".join(parts[k:])}
+        qpath = "queries" if isinstance(queries, dict) else "query.sql"
         ov = [{"go_type": "example.com/x.ID", "db_type": "uuid"}] if rng.random() < 0.4 else None
         rn = {"id": "Ident"} if rng.random() < 0.3 else None
         nm = rng.choice(["db", "db", ""])
@@ -155,7 +169,7 @@ def run(tier, seed):
             if fl not in (flagsets[0], flagsets[-1]) and tier == "quick":
                 variants = [rng.choice(variants[:2]), rng.choice(variants[2:])]
             for ver, fmt, as_list in variants:
-                cfg = (v1_config if ver == "v1" else v2_config)(fl, as_list, ov, rn, nm)
+                cfg = (v1_config if ver == "v1" else v2_config)(fl, as_list, ov, rn, nm, qpath)
                 jobs.append(gen_job(schema, queries, cfg, fmt))
                 meta.append((fl, ver, fmt, as_list))
         res = run_harness(jobs)
